@@ -98,7 +98,9 @@ class Inputs:
     def eval(self, model, small=False):
         out = {}
         for name, (kind, vs, dt) in self.vars.items():
-            if kind == "int":
+            if kind == "const":
+                out[name] = list(vs)
+            elif kind == "int":
                 out[name] = [model.eval(v, True).as_long() for v in vs]
             elif kind == "bool":
                 out[name] = [bool(z3.is_true(model.eval(v, True))) for v in vs]
@@ -158,6 +160,8 @@ def _solver(pre, timeout_ms=None):
 def small_int_constraints(inputs, bound=8):
     cs = []
     for name, (kind, vs, dt) in inputs.vars.items():
+        if kind == "const":
+            continue
         if kind == "float":
             for nan, v in vs:
                 cs.append(z3.And(v == z3.ToReal(z3.ToInt(v)), v >= -bound, v <= bound))
